@@ -342,6 +342,13 @@ class _ResourceOperations:
     def write_file(self, resource, contents: Union[str, FileContent]):
         data: FileContent
         if not isinstance(contents, bytes):
+            if resource.newlines is None and resource.exists():
+                # not read in this session yet (e.g. an undo taken from a saved
+                # history): learn the file's newline convention before replacing it
+                try:
+                    resource.read()
+                except exceptions.ModuleDecodeError:
+                    pass
             data = rope.base.fscommands.unicode_to_file_data(
                 contents,
                 newlines=resource.newlines,
